@@ -1,9 +1,179 @@
 import Driver.Util
-open Lean
+import NixModel.Pure.NdArray
+open Lean Nix Nix.Nd Nix.Gen.Compr
 
+/-!
+Driver for C01.  One JSON object per line:
+  {"fc": <file compression>, "bc": <block compression>, "refetched": bool, "ac": <array compression>,
+   "create": {"dtype": <name>|null, "shape": [n..]|null, "data": ARR|null},
+   "steps": [["write", ARR] | ["assign", [IX..], ARR] | ["append", ARR, axis] | ["resize", [int..]]
+             | ["reopen"] | ["read", [IX..]] ...]}
+  ARR = {"dt": <name>, "shape": [n..], "flat": [elements in C order]}     IX = int | [start|null, stop|null, step|null]
+Elements: integers as numbers, floats as the number of their IEEE bit pattern, booleans, strings.
+Output: {"ok": {"create": "ok"|<Err>, "compressed": bool, "steps": [<observation after each step>]}}.
+A special line ["resolve", fc, bc, ac, refetched] answers {"ok": bool}.
+-/
 namespace Driver.C01
 
-/-- stub: replaced when the model of C01 is built -/
-def main : IO Unit := pureLoop fun _ => bad "C01: model driver not built yet"
+def dtypeOfName : String → Option DType
+  | "uint8" => some .uint8 | "uint16" => some .uint16 | "uint32" => some .uint32 | "uint64" => some .uint64
+  | "int8" => some .int8 | "int16" => some .int16 | "int32" => some .int32 | "int64" => some .int64
+  | "float32" => some .float32 | "float64" => some .float64 | "bool" => some .bool | "string" => some .string
+  | _ => none
+
+def dtypeName : DType → String
+  | .uint8 => "uint8" | .uint16 => "uint16" | .uint32 => "uint32" | .uint64 => "uint64"
+  | .int8 => "int8" | .int16 => "int16" | .int32 => "int32" | .int64 => "int64"
+  | .float32 => "float32" | .float64 => "float64" | .bool => "bool" | .string => "string"
+
+def comprOfName : String → Option Compression
+  | "No" => some .no | "DeflateNormal" => some .deflateNormal | "Auto" => some .auto
+  | _ => none
+
+def elemOfJson (dt : DType) (j : Json) : Option Elem :=
+  match dt, j with
+  | .bool, .bool b => some (.bool b)
+  | .string, .str s => some (.text s)
+  | .float32, j => (jInt? j).map fun i => .f32 i.toNat
+  | .float64, j => (jInt? j).map fun i => .f64 i.toNat
+  | .bool, _ => none
+  | .string, _ => none
+  | _, j => (jInt? j).map fun i => .int i
+
+def elemToJson : Elem → Json
+  | .int v => Json.num (JsonNumber.fromInt v)
+  | .f32 b => Json.num (JsonNumber.fromNat b)
+  | .f64 b => Json.num (JsonNumber.fromNat b)
+  | .bool b => Json.bool b
+  | .text s => Json.str s
+
+def natList? (j : Json) : Option (List Nat) :=
+  match j with
+  | .arr a => a.toList.mapM fun x => match jInt? x with
+    | some i => if i < 0 then none else some i.toNat
+    | none => none
+  | _ => none
+
+def intList? (j : Json) : Option (List Int) :=
+  match j with
+  | .arr a => a.toList.mapM jInt?
+  | _ => none
+
+/-- row-major offset of an in-bounds multi-index -/
+def ravel : List Nat → List Nat → Nat
+  | i :: is, _ :: ns => i * Nix.Nd.sizeOf ns + ravel is ns
+  | _, _ => 0
+
+def arrOfJson (j : Json) : Option (DType × NdArray Elem) := do
+  let dtn ← (j.getObjValAs? String "dt").toOption
+  let dt ← dtypeOfName dtn
+  let sh ← natList? (j.getObjValD "shape")
+  let flatJ := jArr (j.getObjValD "flat")
+  let flat ← flatJ.toList.mapM (elemOfJson dt)
+  let arr := flat.toArray
+  if arr.size ≠ Nix.Nd.sizeOf sh then none
+  else some (dt, ⟨sh, fun idx => arr.getD (ravel idx sh) dt.fill⟩)
+
+def optInt? (j : Json) : Option (Option Int) :=
+  if isNull j then some none else (jInt? j).map some
+
+def ixOfJson (j : Json) : Option Ix :=
+  match j with
+  | .arr a =>
+    match a.toList with
+    | [s, e, st] => do
+      let s ← optInt? s
+      let e ← optInt? e
+      let st ← optInt? st
+      some (Ix.slice s e st)
+    | _ => none
+  | j => (jInt? j).map Ix.int
+
+def ixsOfJson (j : Json) : Option (List Ix) :=
+  match j with
+  | .arr a => a.toList.mapM ixOfJson
+  | _ => none
+
+inductive Cmd where
+  | step (s : Step)
+  | read (ixs : List Ix)
+
+def cmdOfJson (j : Json) : Option Cmd :=
+  match (jArr j).toList with
+  | [Json.str "write", a] => (arrOfJson a).map fun (_, d) => .step (.write d)
+  | [Json.str "assign", ixs, a] => do
+    let ixs ← ixsOfJson ixs
+    let (_, d) ← arrOfJson a
+    some (.step (.assign ixs d))
+  | [Json.str "append", a, ax] => do
+    let (_, d) ← arrOfJson a
+    let ax ← jInt? ax
+    some (.step (.append d ax))
+  | [Json.str "resize", e] => (intList? e).map fun e => .step (.resize e)
+  | [Json.str "reopen"] => some (.step .reopen)
+  | [Json.str "read", ixs] => (ixsOfJson ixs).map .read
+  | _ => none
+
+def natsJson (l : List Nat) : Json := Json.arr (l.map fun n => Json.num (JsonNumber.fromNat n)).toArray
+
+def arrJson (A : NdArray Elem) : List (String × Json) :=
+  [("shape", natsJson A.shape), ("flat", Json.arr (A.toList.map elemToJson).toArray)]
+
+def observe (r : String) (A : DArr) : Json :=
+  let whole := readAll A
+  Json.mkObj ([("r", Json.str r), ("dtype", Json.str (dtypeName A.dtype)),
+    ("extent", natsJson A.arr.shape),
+    ("len", match lenOf A with
+      | .ok n => Json.num (JsonNumber.fromNat n)
+      | .error e => Json.str e.toString),
+    ("size", Json.num (JsonNumber.fromNat (Nix.Nd.sizeOf A.arr.shape))),
+    ("compressed", Json.bool A.compressed)] ++ arrJson whole)
+
+def runCmds (A : DArr) : List Cmd → List Json
+  | [] => []
+  | .read ixs :: rest =>
+    (match readRegion A ixs with
+      | .ok R => Json.mkObj ([("r", Json.str "ok")] ++ arrJson R)
+      | .error e => Json.mkObj [("r", Json.str e.toString)]) :: runCmds A rest
+  | .step s :: rest =>
+    match step A s with
+    | .ok B => observe "ok" B :: runCmds B rest
+    | .error e => observe e.toString A :: runCmds A rest
+
+def handleCase (j : Json) : Option Json := do
+  let fc ← comprOfName (jStr (j.getObjValD "fc"))
+  let bc ← comprOfName (jStr (j.getObjValD "bc"))
+  let ac ← comprOfName (jStr (j.getObjValD "ac"))
+  let refetched := jBool (j.getObjValD "refetched")
+  let c := j.getObjValD "create"
+  let dtJ := c.getObjValD "dtype"
+  let dtype ← if isNull dtJ then some none else (dtypeOfName (jStr dtJ)).map some
+  let shJ := c.getObjValD "shape"
+  let shape ← if isNull shJ then some none else (natList? shJ).map some
+  let dJ := c.getObjValD "data"
+  let data ← if isNull dJ then some none else (arrOfJson dJ).map some
+  let cmds ← (jArr (j.getObjValD "steps")).toList.mapM cmdOfJson
+  let compr := resolveCompression fc bc ac refetched
+  match createDataArray dtype shape data compr with
+  | .error e => some (ok (Json.mkObj [("create", Json.str e.toString)]))
+  | .ok A =>
+    some (ok (Json.mkObj [("create", Json.str "ok"), ("first", observe "ok" A),
+                           ("steps", Json.arr (runCmds A cmds).toArray)]))
+
+def handle (j : Json) : Json :=
+  match j with
+  | .arr a =>
+    match a.toList with
+    | [Json.str "resolve", fc, bc, ac, r] =>
+      match comprOfName (jStr fc), comprOfName (jStr bc), comprOfName (jStr ac) with
+      | some f, some b, some c => ok (Json.bool (resolveCompression f b c (jBool r)))
+      | _, _, _ => bad "C01: bad compression name"
+    | _ => bad "C01: unknown op"
+  | j =>
+    match handleCase j with
+    | some r => r
+    | none => bad "C01: malformed case"
+
+def main : IO Unit := pureLoop handle
 
 end Driver.C01
